@@ -129,69 +129,31 @@ def rule_routing(ctx, cfg, r, r_strategy):
         r.fail("deflate::stored::compress_stored", "stored-pure", "the stored routine can reach %s" % sorted(hits))
     else:
         r.ok("deflate::stored::compress_stored", "stored-pure", "compress_stored reaches no match/literal recording function")
-    # flush_block under the raw flag: use_raw_block ... and static forcing
-    g = c.fn("deflate::core::compress_block")
-    ev = paths.Evaluator(c, effects=E)
-    okst = True
-    for x in ev.run(g):
-        dyn = calls_named(x, "HuffmanOxide::start_dynamic_block")
-        sta = calls_named(x, "HuffmanOxide::start_static_block")
-        v = vs(x, P(4)).single()
-        if (dyn and v != 0) or (sta and v != 1) or (dyn and sta):
-            okst = False
+    # static forcing, decided on the paths of flush_block (compress_block, where it exists, evaluated inline): every path that reaches
+    # start_dynamic_block has established that FORCE_ALL_STATIC_BLOCKS is clear
     STATIC = c.const_int("deflate_flags::TDEFL_FORCE_ALL_STATIC_BLOCKS")
     fb = c.fn("deflate::core::flush_block")
-    sites = call_sites(fb, "deflate::core::compress_block")
-    forced = 0
-    # decided on paths: evaluate flush_block from a few dominators above each call (so that the computation of the `static` argument
-    # is part of the region); on every path on which the argument may be false, the facts must say FORCE_ALL_STATIC_BLOCKS is clear
-    for bb, t in sites:
-        doms = fb.dominators().get(bb, {bb})
-        chain = sorted(doms, key=lambda b: len(fb.dominators().get(b, ())))
-        okk = None
-        for back in (6, 10, 16):
-            start = chain[max(0, len(chain) - back)]
-            try:
-                rows_ = paths.Evaluator(c, effects=E, max_blocks=40, max_paths=4000).run(fb, start_bb=start)
-            except paths.PathLimit:
-                continue
-            seen_call = False
-            okk = True
-            for x in rows_:
-                cb = [e for e in calls_named(x, "deflate::core::compress_block")]
-                if not cb:
-                    continue
-                seen_call = True
-                arg = cb[0][2][3]
-                av = ISet.of(const_val(arg)) if is_const(arg) else vs(x, arg)
-                if not av.contains(0):
-                    continue                    # static on this path
-                flag_clear = False
-                for a, s_ in x.atoms:
-                    for st_ in paths.subterms(a):
-                        if st_ and st_[0] == "bin" and st_[1] == "BitAnd" and is_const(st_[3]) and const_val(st_[3]) == STATIC and \
-                                paths.is_load_of(st_[2], "flags", "ParamsOxide") and vs(x, st_).single() == 0:
-                            flag_clear = True
-                if not flag_clear:
-                    # the argument may itself be (a function of) the flag test: assume the flag set and re-decide the argument
-                    fts = [st_ for st_ in paths.subterms(arg) if st_ and st_[0] == "bin" and st_[1] == "BitAnd" and is_const(st_[3]) and
-                           const_val(st_[3]) == STATIC and paths.is_load_of(st_[2], "flags", "ParamsOxide")]
-                    if fts and arg[0] == "bin" and arg[1] in ("Ne", "Eq", "Gt", "Ge", "Lt", "Le"):
-                        f2 = x.facts.copy()
-                        if f2.constrain(fts[0], ISet.of(STATIC)) and f2.decide_cmp(arg[1], arg[2], arg[3]) == 1:
-                            flag_clear = True
-                if not flag_clear:
-                    okk = False
-            if seen_call and okk:
-                break
-            if seen_call and not okk and back == 16:
-                break
-        if okk:
-            forced += 1
-    if okst and forced == len(sites) and sites:
-        r_strategy.ok(fb.name, "static-forcing", "FORCE_ALL_STATIC_BLOCKS makes use_static true at every compress_block call; dynamic header only when !static")
+    rows_sf = paths.Evaluator(c, effects=E, max_paths=30000, inline=["deflate::core::compress_block"]).run(fb)
+    n_dyn = 0
+    bad_sf = None
+    for x in rows_sf:
+        if not calls_named(x, "HuffmanOxide::start_dynamic_block"):
+            continue
+        n_dyn += 1
+        clear = any(v == 0 and k[1] == STATIC and paths.is_load_of(k[0], "flags", "ParamsOxide") for k, v in mask_tests(x).items())
+        if not clear:
+            for a_, s_ in x.atoms:
+                for st_ in paths.subterms(a_):
+                    if st_ and st_[0] == "bin" and st_[1] == "BitAnd" and is_const(st_[3]) and const_val(st_[3]) == STATIC and \
+                            paths.is_load_of(st_[2], "flags", "ParamsOxide") and vs(x, st_).single() == 0:
+                        clear = True
+        if not clear:
+            bad_sf = x
+    if n_dyn and bad_sf is None:
+        r_strategy.ok(fb.name, "static-forcing", "every path of flush_block to start_dynamic_block has FORCE_ALL_STATIC_BLOCKS clear (%d paths)" % n_dyn)
     else:
-        r_strategy.fail(fb.name, "static-forcing", "the fixed strategy can reach start_dynamic_block (compress_block ok=%s, forced sites %d/%d)" % (okst, forced, len(sites)))
+        r_strategy.fail(fb.name, "static-forcing", "the fixed strategy can reach start_dynamic_block (%d paths to it%s)"
+                        % (n_dyn, "; one without the flag test: " + bad_sf.describe(8) if bad_sf is not None else ""))
     # HuffmanOnly: zero probes -> max_probes [1,1] -> find_match returns its input at the first probe
     pf = configfn.ConfigFn(c, "deflate::core::probes_from_flags", ["flags"])
     okh = True
@@ -367,14 +329,30 @@ def rule_limits(ctx, cfg, r):
     else:
         r.fail(fb.name, "stored-header", "stored block header is not BTYPE=00 / pad / LEN / !LEN as 16-bit fields (%d LEN sites seen)" % n_hdr,
                where=first_span(bad_hdr) if bad_hdr is not None else None)
-    # BFINAL
-    bf = [(local_expr(c, fb, bb, t["args"][1]), local_expr(c, fb, bb, t["args"][2])) for bb, t in call_sites(fb, "OutputBufferOxide::put_bits")]
-    okbf = any(is_const(n) and const_val(n) == 1 and v[0] == "cast" and v[1][0] == "un" or (is_const(n) and const_val(n) == 1 and "Finish" in repr(v)) or
-               (is_const(n) and const_val(n) == 1 and v[0] == "cast") for v, n in bf)
-    if okbf:
-        r.ok(fb.name, "bfinal", "block header bit = (flush == Finish) as u32, 1 bit")
+    # BFINAL: the 1-bit field that opens a block is 1 exactly when flush == Finish — decided on the paths (the value is either the
+    # comparison itself, in any width, or the constant the path's decision about `flush` implies)
+    FIN = discr(c, "TDEFLFlush", "Finish")
+    n_bf = 0
+    bad_bf = None
+    for x in rows_fb:
+        for e in x.effects:
+            if e[0] == "call" and e[1].endswith("put_bits") and len(e[2]) > 2 and is_const(e[2][2]) and const_val(e[2][2]) == 1:
+                n_bf += 1
+                v = normcasts(c, x, e[2][1])
+                fl = vs(x, ("discr", P(3)))
+                if is_const(v):
+                    good = fl.single() is not None and const_val(v) == (1 if fl.single() == FIN else 0) or \
+                        (const_val(v) == 0 and not fl.contains(FIN))
+                else:
+                    good = v[0] == "bin" and v[1] == "Eq" and {v[2], v[3]} >= {P(3)} and any(q[0] == "enum" and q[2] == "Finish" for q in (v[2], v[3]))
+                if not good:
+                    bad_bf = (x, e)
+                break       # the first 1-bit field of the path is the block's BFINAL
+    if n_bf and bad_bf is None:
+        r.ok(fb.name, "bfinal", "block header bit = (flush == Finish), 1 bit")
     else:
-        r.fail(fb.name, "bfinal", "BFINAL is not emitted as a 1-bit field derived from flush == Finish")
+        r.fail(fb.name, "bfinal", "BFINAL is not emitted as a 1-bit field derived from flush == Finish (%d sites seen%s)"
+               % (n_bf, (": " + tstr(bad_bf[1][2][1])[:60]) if bad_bf else ""))
     # auxiliary (unclaimed) C15 lint: stored cut vs mz_deflateBound divisor
     r.note("auxiliary C15 lint: compress_stored flushes a block when bytes_written > 31*1024 (mz_deflateBound assumes one 5-byte header per 31744 bytes)")
 
